@@ -158,6 +158,15 @@ impl Documents {
                 err: err.to_string(),
             })?;
 
+        // `tokio::fs::File` performs writes in the background: without a flush the bytes (and any
+        // write error) may still be outstanding when the compilation thread reads the file.
+        file.flush()
+            .await
+            .map_err(|err| DocumentError::UnableToWriteFile {
+                path: uri.path().to_string(),
+                err: err.to_string(),
+            })?;
+
         Ok(())
     }
 
